@@ -160,7 +160,7 @@ def run_case(case) -> Result:
         import asyncio
 
         await asyncio.sleep(0)
-        resp = agent.handle(bytes(data), timeout=timeout, retries=retries)
+        resp = agent.handle_or_timeout(bytes(data), timeout=timeout, retries=retries)
         await asyncio.sleep(0)
         return resp
 
